@@ -619,6 +619,14 @@ func (v *verifier) verifyRevocation(ctx context.Context, outcome *notation.Verif
 		}
 	}
 
+	if err := checkRevocationResults(certResults, outcome.EnvelopeContent.SignerInfo.CertificateChain); err != nil {
+		return &notation.ValidationResult{
+			Type:   trustpolicy.TypeRevocation,
+			Action: outcome.VerificationLevel.Enforcement[trustpolicy.TypeRevocation],
+			Error:  fmt.Errorf("unable to check revocation status, err: %s", err.Error()),
+		}
+	}
+
 	result := &notation.ValidationResult{
 		Type:   trustpolicy.TypeRevocation,
 		Action: outcome.VerificationLevel.Enforcement[trustpolicy.TypeRevocation],
@@ -842,6 +850,20 @@ func verifyAuthenticTimestamp(ctx context.Context, policyName string, trustStore
 		Type:   trustpolicy.TypeAuthenticTimestamp,
 		Action: outcome.VerificationLevel.Enforcement[trustpolicy.TypeAuthenticTimestamp],
 	}
+}
+
+// checkRevocationResults makes sure that the revocation validator reported
+// exactly one result for every certificate of the chain.
+func checkRevocationResults(certResults []*revocationresult.CertRevocationResult, certChain []*x509.Certificate) error {
+	if len(certResults) != len(certChain) {
+		return fmt.Errorf("revocation validator returned %d results for a certificate chain of length %d", len(certResults), len(certChain))
+	}
+	for i, certResult := range certResults {
+		if certResult == nil {
+			return fmt.Errorf("revocation validator returned no result for certificate #%d in chain", i+1)
+		}
+	}
+	return nil
 }
 
 // revocationFinalResult returns the final revocation result and problematic
@@ -1136,6 +1158,9 @@ func verifyTimestamp(ctx context.Context, policyName string, trustStores []strin
 		CertChain: tsaCertChain,
 	})
 	if err != nil {
+		return fmt.Errorf("failed to check timestamping certificate chain revocation with error: %w", err)
+	}
+	if err := checkRevocationResults(certResults, tsaCertChain); err != nil {
 		return fmt.Errorf("failed to check timestamping certificate chain revocation with error: %w", err)
 	}
 	finalResult, problematicCertSubject := revocationFinalResult(certResults, tsaCertChain, logger)
